@@ -801,10 +801,18 @@ func analyseSticky(c *Ctx, ptrT types.Type, wfield string) stickyInfo {
 // stored as a different number when it is negative (uint64(-2) = 18446744073709551614); weights
 // are arbitrary ints, so such a conversion must be of a value proved not to be negative.
 func ruleSignConv(c *Ctx, pkgRel string) *RuleResult {
-	r := &RuleResult{Rule: "SIGNCONV", Doc: "no signed value is converted to an unsigned type unless it is proved not to be negative (weights may be negative)", MinInst: 0}
+	return ruleSignConvIn(c, pkgRel, nil, "a negative weight is written as a huge positive number")
+}
+
+// ruleSignConvIn: the same obligation for a named set of functions (only != nil) with its own consequence text.
+func ruleSignConvIn(c *Ctx, pkgRel string, only map[*ssa.Function]bool, consequence string) *RuleResult {
+	r := &RuleResult{Rule: "SIGNCONV", Doc: "no signed value is converted to an unsigned type unless it is proved not to be negative", MinInst: 0}
 	for _, fn := range c.Funcs {
 		p := fnPkg(fn)
 		if p == nil || p.Pkg.Path() != c.Mod+"/"+pkgRel || fn.Synthetic != "" || fn.Blocks == nil {
+			continue
+		}
+		if only != nil && !only[fn] {
 			continue
 		}
 		var P *Prover
@@ -828,7 +836,7 @@ func ruleSignConv(c *Ctx, pkgRel string) *RuleResult {
 				ok2 := P.Prove(P.poly(cv.X).scale(-1), b)
 				r.oblig(ok2)
 				if !ok2 {
-					r.find(c.short(fn)+":signed to unsigned "+src, c.instrPos(cv), "%s converts %s (%s) to %s without establishing that it is not negative: a negative weight is written as a huge positive number", c.short(fn), src, cv.X.Type(), cv.Type())
+					r.find(c.short(fn)+":signed to unsigned "+src, c.instrPos(cv), "%s converts %s (%s) to %s without establishing that it is not negative: %s", c.short(fn), src, cv.X.Type(), cv.Type(), consequence)
 				}
 			}
 		}
